@@ -137,6 +137,17 @@ pub uninterp spec fn follow_checked(dir: int, link: int) -> bool;    // may_foll
 /// the link was opened as an entry of a directory against which the protected_symlinks rule was evaluated
 pub open spec fn follow_checked_in_parent(link: int) -> bool { exists|d: int, n: Seq<u8>| (#[trigger] opened_from(link, d, n)) && follow_checked(d, link) }
 pub uninterp spec fn no_symlinks_requested() -> bool;     // rigid: the operation was asked not to follow any link
+/// the descriptor refers to a detached mount that only this process can reach (fsmount(2) result; open_tree(2) with
+/// OPEN_TREE_CLONE): mounts made on the host's /proc are not part of it (A5b)
+pub uninterp spec fn private_mount(id: int) -> bool;
+/// the mount behind the descriptor is the host's /proc mount or a clone of it (open_tree(2), open(2)) and shares its
+/// hidepid= / subset= options; a mount made by fsmount(2) from a new superblock is not
+pub uninterp spec fn derived_from_host_mount(id: int) -> bool;
+/// definitional ghost record (variant `attempt` of new_fsopen): the attempt of this call to create a new instance failed
+pub uninterp spec fn new_instance_attempt_failed(subset: bool) -> bool;
+pub uninterp spec fn clone_attempt_failed() -> bool;
+/// the object the descriptor refers to is a symbolic link (only an O_PATH|O_NOFOLLOW descriptor can be one)
+pub uninterp spec fn is_symlink_object(fd: int) -> bool;
 pub uninterp spec fn kflags64(id: int) -> u64;       // openat2: how.flags as given to the kernel
 pub uninterp spec fn resolve_bits_of(id: int) -> u64; // openat2: how.resolve as given to the kernel
 pub open spec fn resolve_confined(r: u64) -> bool { r & 0x12u64 == 0x12u64 || r & 0x0bu64 == 0x0bu64 }
